@@ -55,7 +55,7 @@ class Kit:
             self.coords = lambda s: list(s.values)
             self.pd = b.ProblemDefinition.from_real_vector
         elif v == "so2":
-            self.space = b.SO2StateSpace()
+            self.space = b.SO2StateSpace((f(sp["bounds"][0]), f(sp["bounds"][1]))) if sp.get("bounds") else b.SO2StateSpace()
             if fr:
                 self.space.set_longest_valid_segment_fraction(fr[0])
             self.mk = lambda c: b.SO2State(c[0])
